@@ -33,8 +33,11 @@ import (
 	"time"
 
 	"github.com/risor-io/risor"
+	"github.com/risor-io/risor/compiler"
 	"github.com/risor-io/risor/importer"
 	"github.com/risor-io/risor/object"
+	"github.com/risor-io/risor/parser"
+	"github.com/risor-io/risor/vm"
 )
 
 type caseIn struct {
@@ -55,6 +58,7 @@ type caseOut struct {
 	Plain  routeOut `json:"plain"`
 	Local  routeOut `json:"local"`
 	FS     routeOut `json:"fs"`
+	Incr   routeOut `json:"incr"`
 }
 
 type recorder struct {
@@ -338,6 +342,97 @@ func evalRoute(src string, rec *recorder, opts ...risor.Option) (out routeOut) {
 	return out
 }
 
+// splitTop cuts a program into its top-level statements: at every line break outside brackets and string literals
+func splitTop(src string) []string {
+	var out []string
+	depth := 0
+	inStr := byte(0)
+	start := 0
+	for i := 0; i < len(src); i++ {
+		ch := src[i]
+		if inStr != 0 {
+			if ch == '\\' && inStr != '`' {
+				i++
+			} else if ch == inStr {
+				inStr = 0
+			}
+			continue
+		}
+		switch ch {
+		case '"', '\'', '`':
+			inStr = ch
+		case '(', '{', '[':
+			depth++
+		case ')', '}', ']':
+			depth--
+		case '\n':
+			if depth == 0 {
+				if strings.TrimSpace(src[start:i]) != "" {
+					out = append(out, src[start:i])
+				}
+				start = i + 1
+			}
+		}
+	}
+	if strings.TrimSpace(src[start:]) != "" {
+		out = append(out, src[start:])
+	}
+	return out
+}
+
+// evalIncr runs the program statement by statement on ONE compiler and ONE VM whose main code grows (what a REPL
+// does): the modules imported by earlier statements and their functions stay loaded across the Runs
+func evalIncr(src string, rec *recorder, opts ...risor.Option) (out routeOut) {
+	defer func() {
+		if r := recover(); r != nil {
+			out.Events = rec.events
+			out.Err = "GOPANIC"
+			out.Raw = fmt.Sprint(r)
+		}
+	}()
+	ctx, cancel := context.WithTimeout(context.Background(), 120*time.Second)
+	defer cancel()
+	cfg := risor.NewConfig(opts...)
+	var err error
+	var c *compiler.Compiler
+	var v *vm.VirtualMachine
+	c, err = compiler.New(cfg.CompilerOpts()...)
+	if err == nil {
+		for _, piece := range splitTop(src) {
+			prog, e := parser.Parse(ctx, piece)
+			if e != nil {
+				err = e
+				break
+			}
+			code, e := c.Compile(prog)
+			if e != nil {
+				err = e
+				break
+			}
+			if v == nil {
+				v = vm.New(code, cfg.VMOpts()...)
+			}
+			if e := v.Run(ctx); e != nil {
+				err = e
+				break
+			}
+		}
+	}
+	out.Events = rec.events
+	if out.Events == nil {
+		out.Events = []string{}
+	}
+	out.Err = errClass(err)
+	if err != nil {
+		raw := err.Error()
+		if len(raw) > 300 {
+			raw = raw[:300]
+		}
+		out.Raw = raw
+	}
+	return out
+}
+
 func globalNames(opts ...risor.Option) []string {
 	return risor.NewConfig(opts...).GlobalNames()
 }
@@ -401,6 +496,10 @@ func main() {
 					GlobalNames: globalNames(g), SourceFS: &recFS{inner: os.DirFS(root), rec: rec},
 					Extensions: []string{".risor", ".rsr"}})
 				out.FS = evalRoute(src, rec, g, risor.WithImporter(&recImporter{inner: inner, rec: rec}))
+			}
+			{
+				rec := newRecorder()
+				out.Incr = evalIncr(src, rec, risor.WithGlobals(rec.builtins()), risor.WithLocalImporter(rootArg))
 			}
 			_ = enc.Encode(&out)
 		}
